@@ -500,6 +500,11 @@ class WorkQueue:
         async def pump() -> None:
             try:
                 async for items in stream.queue.batches():
+                    if self._stopped:
+                        # Cancelled in the meantime (the cancellation of this
+                        # pump can get lost when the awaited item suppresses
+                        # it); nobody would handle the items any more.
+                        return
                     handled = Event()
                     self._push(_StreamItems(stream, list(items), handled))
                     # Wait until the items were handled before proceeding, so
